@@ -475,7 +475,12 @@ fn eval_func_expr(
     node: dom::XmlNode,
     context: &mut model::Context,
 ) -> error::Result<model::Value> {
-    let (local_part, _, uri) = context.expanded_name(func.name())?;
+    let (local_part, prefix, mut uri) = context.expanded_name(func.name())?;
+    // A default namespace bound by the caller applies to element names only; an unprefixed
+    // function name is a core library function, in no namespace.
+    if prefix.is_none() {
+        uri = None;
+    }
 
     let table = func::table();
     let entry = table
